@@ -21,6 +21,13 @@ import (
 // errNeitherNor: the library returned (nil, nil) - no value and no error - which is never a valid outcome.
 var errNeitherNor = errors.New("DecodeDecrypt returned neither a message nor an error (nil, nil)")
 
+// misbehaviour is an outcome of DecodeDecrypt that is never valid, whatever the input (it matches errNeitherNor in
+// errors.Is, so every caller that expects a rejection still reports it).
+type misbehaviour struct{ msg string }
+
+func (m *misbehaviour) Error() string        { return m.msg }
+func (m *misbehaviour) Is(target error) bool { return target == errNeitherNor }
+
 const maxInnerChain = 65400 // keeps 4 + IV + ciphertext + ICV inside the 16-bit payload length
 
 type protIn struct {
@@ -108,23 +115,54 @@ func libProtect(m model.Message, sa *security.IKESAKey, sendI bool, entropy []by
 	return w, lm, chunks, nil
 }
 
-// libUnprotect runs DecodeDecrypt on a private exact-capacity copy of w and reads the result.
+// libUnprotect runs DecodeDecrypt on a private copy of w and reads the result. Half of the datagrams (chosen by their own
+// octets, so a case stays a pure function of its input) are presented with exact capacity (any access past the length panics),
+// the other half in a roomy receive buffer whose spare capacity holds sentinel octets - as a datagram read into a large buffer,
+// or followed by the next datagram, is. Whatever the datagram: nothing behind its length may be written to, and a datagram that
+// was refused is refused again when the very same buffer is presented a second time.
 func libUnprotect(w []byte, sa *security.IKESAKey, recvI, withHdr bool) (model.Message, error) {
 	var dm *message.IKEMessage
+	roomy := false
+	if len(w) > 0 {
+		roomy = (w[len(w)-1]^w[len(w)/2])&1 == 1
+	}
 	x := probe.Exact(w)
-	err := probe.Try(func() error {
-		var hdr *message.IKEHeader
-		if withHdr {
-			h, e := message.ParseHeader(x)
-			if e != nil {
-				return fmt.Errorf("ParseHeader: %w", e)
-			}
-			hdr = h
+	var tail []byte
+	if roomy {
+		tail = make([]byte, 80)
+		for i := range tail {
+			tail[i] = 0x96 ^ byte(i)
 		}
-		var e error
-		dm, e = ike.DecodeDecrypt(x, hdr, sa, bridge.Role(recvI))
-		return e
-	})
+		x = probe.SpareWith(w, tail)
+	}
+	call := func() error {
+		return probe.Try(func() error {
+			var hdr *message.IKEHeader
+			if withHdr {
+				h, e := message.ParseHeader(x)
+				if e != nil {
+					return fmt.Errorf("ParseHeader: %w", e)
+				}
+				hdr = h
+			}
+			var e error
+			dm, e = ike.DecodeDecrypt(x, hdr, sa, bridge.Role(recvI))
+			return e
+		})
+	}
+	err := call()
+	if roomy {
+		if got := x[len(x):cap(x)]; string(got) != string(tail) {
+			return model.Message{}, &misbehaviour{fmt.Sprintf("DecodeDecrypt wrote to the memory behind the %d-octet datagram it was given (the spare capacity of the receive buffer changed)", len(w))}
+		}
+		if err != nil && !probe.IsPanic(err) {
+			dm = nil
+			if err2 := call(); err2 == nil && dm != nil {
+				return model.Message{}, &misbehaviour{fmt.Sprintf("a datagram that was refused (%v) is ACCEPTED when the same receive buffer is presented a second time", err)}
+			}
+			dm = nil
+		}
+	}
 	if err != nil {
 		return model.Message{}, err
 	}
